@@ -278,3 +278,11 @@ func FileBytes(path string) []byte {
 	}
 	return b
 }
+
+// Stub (engine): calls of the named function or method are redirected to f, a harness function
+// with the same parameters (receiver first). Natively nothing is redirected: the real code runs.
+func Stub(name string, f interface{}) {}
+
+// Fresh (engine): an arbitrary value in [lo,hi] that is not a harness input (used by stubs whose
+// contract leaves the result open). Natively stubs never run.
+func Fresh(tag string, lo, hi int64) int64 { return lo }
